@@ -472,6 +472,81 @@ def _defaults(rep, model):
             if shape != (3,) * ndim:
                 return 'shape %r' % (shape,)
         guarded(rep, 'R4', 'uniform_discr_frompartition[%s]' % name, f, DSP)
+    _cell_volume(rep, model)
+
+
+def _cell_volume(rep, model):
+    """R4c: what `uniform_discr_frompartition` takes as default weighting:
+    `RectPartition.cell_sides` is the grid stride, the extent on axes with a
+    single point (stride exactly 0), and `cell_volume` their product - for
+    every positive stride, however small (a tolerance test on the stride is
+    explored with both outcomes)."""
+    from ..namodel import NAInterp, NAHooks, objarr
+    from ..forks import explore, Fork
+    PART = 'odl/discr/partition.py'
+    ci = model.get('RectPartition')
+    if ci is None:
+        raise AnalysisError('anchor vanished: RectPartition')
+    h = [Rat.var('h0'), Rat.const(0), Rat.var('h2')]
+    e = [Rat.var('e0'), Rat.var('e1'), Rat.var('e2')]
+
+    class PH(NAHooks):
+        def on_getattr(self, interp, obj, name):
+            if isinstance(obj, Inst) and obj.ci is ci:
+                if name == 'grid':
+                    return Rec('grid', stride=NA(objarr(list(h)), 'float64'))
+                if name == 'extent':
+                    return NA(objarr(list(e)), 'float64')
+                if name == 'ndim':
+                    return 3
+                if name == 'size':
+                    return 12
+            return NAHooks.on_getattr(self, interp, obj, name)
+
+        def on_name(self, interp, name):
+            if name == 'float':
+                return Builtin('float', lambda v=0: v)
+            return NAHooks.on_name(self, interp, name)
+
+        def on_decide(self, interp, cond, node):
+            if cond.rat is not None and cond.key.startswith('eq0:'):
+                return False          # generic (non-zero) symbols
+            return NAHooks.on_decide(self, interp, cond, node)
+    for attr, want in (('cell_sides', [h[0], e[1], h[2]]),
+                       ('cell_volume', [h[0] * e[1] * h[2]])):
+        cons = 'RectPartition.%s' % attr
+
+        def once(assume):
+            I = NAInterp(model, assume, PH())
+            return I.getattr_value(Inst(ci), attr)
+        try:
+            leaves = explore(once, limit=32)
+        except (Undecided, Fork) as ex:
+            rep.undecided('R4c', cons, str(ex), PART)
+            continue
+        except PyRaise as ex:
+            rep.violation('R4c', cons, 'raises %s' % ex.name, PART)
+            continue
+        bad = None
+        for assume, r in leaves:
+            got = [to_rat(v) for v in (r.a.ravel() if isinstance(r, NA)
+                                       else [r])]
+            if len(got) != len(want) or any(
+                    not (g - w).is_zero() for g, w in zip(got, want)):
+                bad = '%s is %r, expected %r%s' % (
+                    attr, got, want, ' [when %s]' % '; '.join(
+                        '%s is %s' % (k, v) for k, v in assume.items())
+                    if assume else '')
+                break
+        if bad:
+            rep.violation('R4c', cons, bad, PART,
+                          ci.methods[attr].lineno if attr in ci.methods
+                          else None)
+        else:
+            rep.holds('R4c', cons, 'stride, extent on single-point axes; '
+                      'product (%d path%s)' % (len(leaves),
+                                               's' if len(leaves) > 1
+                                               else ''))
 
 
 # ---------------------------------------------------------------------------
